@@ -8,10 +8,12 @@ also ties this model to the real `Graph::from_files` on every run.
 
 Domain of the property ("the listed network"): the documented input format, in which the id of an
 edge / vertex is the number of its row and every endpoint is a listed vertex:
-`RowIds es`, `EndpointsBelow es vs.length`.  The loader itself checks none of this, and it forgets the
-`missing_vertices` it collects; what it then builds is stated by the `…_general` theorems (true of every
-input) and the `…_counterexample` theorems (files that are accepted although the graph built is not the
-listed one).
+`RowIds es`, `VertexRowIds vs`, `EndpointsBelow es vs.length`.  Since /repo 0316a94 and c6cac08 the
+loader checks the first two and that every endpoint is below the declared / scanned vertex count, so
+the top-level statement is proved for EVERY input (`loaded_topology_is_listed`); only the triplet
+clause keeps a hypothesis (`loaded_network_is_listed_partial`), because the number of vertex rows is
+not compared with that count (`endpoint_beyond_vertex_rows_accepted_counterexample`).  What the loader
+builds from arbitrary rows is stated by the `…_general` theorems.
 
 Adjacency order: `out_edges v` is the rows leaving `v` *in file order* (the container's `keys()` yields
 insertion order in each of its representations); nothing bounds a vertex's degree.
@@ -232,7 +234,7 @@ theorem all_out_in_edges_perm (es : List (Edge α)) (vs : List (Vertex α)) (nV 
 
 /-- each vertex has the listed coordinates (vertex ids are row numbers) -/
 theorem get_vertex_by_id (es : List (Edge α)) (vs : List (Vertex α)) (nV : Nat)
-    (hv : ∀ i (h : i < vs.length), (vs[i]'h).vertexId = i) (i : Nat) (hi : i < vs.length) :
+    (hv : VertexRowIds vs) (i : Nat) (hi : i < vs.length) :
     (buildGraph es vs nV).getVertex i = .ok vs[i] ∧ vs[i].vertexId = i := by
   refine ⟨?_, hv i hi⟩
   rw [get_vertex_general, List.getElem?_eq_getElem hi]
@@ -279,7 +281,7 @@ theorem table_aligned {β : Type} (table : List β) (es : List (Edge α)) (h : R
   obtain ⟨hi, _⟩ := (h.mem_iff e).1 he
   exact ⟨hl ▸ hi, by simp [tableRow, List.getElem?_eq_getElem (hl ▸ hi)]⟩
 
-/-! ### the file layer: counts explicit or scanned, error kinds -/
+/-! ### the file layer: counts explicit or scanned, validation, error kinds -/
 
 theorem decodeRows_ok {ρ : Type} (l : List ρ) : decodeRows (l.map Row.ok) = .ok l := by
   induction l with
@@ -292,12 +294,14 @@ theorem decodeRows_bad {ρ : Type} (a : List ρ) (b : List (Row ρ)) :
   | nil => rfl
   | cons x xs ih => simp [decodeRows, ih]
 
-/-- files whose rows all decode load to `buildGraph` of the rows, with the vertex count explicit
-(`nV = vs.length`) or scanned (header line + one line per row), and any treatment of the edge count
-(explicit — even wrong — or scanned from a non-empty file): explicit and scanned loads are the same -/
+/-- files in the documented format (every row decodes, ids are row numbers, endpoints are listed
+vertices) load to `buildGraph` of the rows, with the vertex count explicit (`nV = vs.length`) or scanned
+(header line + one line per row), and any treatment of the edge count (explicit — even wrong — or
+scanned from a non-empty file): explicit and scanned loads are the same -/
 theorem from_files_ok (es : List (Edge α)) (vs : List (Vertex α)) (el vl : Nat)
     (nE nV : Option Nat) (hE : nE ≠ none ∨ 1 ≤ el)
-    (hV : nV = some vs.length ∨ (nV = none ∧ vl = vs.length + 1)) :
+    (hV : nV = some vs.length ∨ (nV = none ∧ vl = vs.length + 1))
+    (h : RowIds es) (hb : EndpointsBelow es vs.length) (hv : VertexRowIds vs) :
     graphFromFiles ⟨true, el, es.map Row.ok⟩ ⟨true, vl, vs.map Row.ok⟩ nE nV =
       .ok (buildGraph es vs vs.length) := by
   have h1 : ∃ n, countOrScan nE (⟨true, el, es.map Row.ok⟩ : CsvFile (Edge α)) = .ok n := by
@@ -311,7 +315,59 @@ theorem from_files_ok (es : List (Edge α)) (vs : List (Vertex α)) (el vl : Nat
     rcases hV with hV | ⟨hV, hl⟩
     · subst hV; rfl
     · subst hV; subst hl; simp [countOrScan, scanCount]
-  simp [graphFromFiles, hn, h2, readCsv, decodeRows_ok]
+  have h3 : (missingVertices es vs.length).isEmpty = true := by
+    rw [(missingVertices_eq_nil_iff es vs.length).2 hb]; rfl
+  simp [graphFromFiles, hn, h2, readCsv, decodeRows_ok, h3, (idsAreRows_edges_iff es).2 h,
+    (idsAreRows_vertices_iff vs).2 hv]
+
+/-- everything a successful load implies: both files could be opened, every row decoded, the vertex
+count `n` was declared or scanned, every endpoint is below `n`, edge and vertex ids are row numbers,
+and the graph is `buildGraph` of the rows with tables of size `n` -/
+theorem from_files_ok_inv (ef : CsvFile (Edge α)) (vf : CsvFile (Vertex α)) (nE nV : Option Nat)
+    (g : Graph α) (hg : graphFromFiles ef vf nE nV = .ok g) :
+    ∃ es vs n, ef.present = true ∧ vf.present = true ∧ ef.rows = es.map Row.ok ∧ vf.rows = vs.map Row.ok ∧
+      countOrScan nV vf = .ok n ∧ RowIds es ∧ VertexRowIds vs ∧ EndpointsBelow es n ∧
+      g = buildGraph es vs n := by
+  unfold graphFromFiles at hg
+  cases h1 : countOrScan nE ef with
+  | error x => simp [h1] at hg
+  | ok k =>
+    cases h2 : countOrScan nV vf with
+    | error x => simp [h1, h2] at hg
+    | ok n =>
+      cases h3 : readCsv ef with
+      | error x => simp [h1, h2, h3] at hg
+      | ok es =>
+        by_cases h4 : (missingVertices es n).isEmpty = false
+        · simp [h1, h2, h3, h4] at hg
+        · cases h5 : readCsv vf with
+          | error x => simp [h1, h2, h3, h4, h5] at hg
+          | ok vs =>
+            by_cases h6 : idsAreRows (es.map Edge.edgeId) = false
+            · simp [h1, h2, h3, h4, h5, h6] at hg
+            · by_cases h7 : idsAreRows (vs.map Vertex.vertexId) = false
+              · simp [h1, h2, h3, h4, h5, h6, h7] at hg
+              · have h4' : (missingVertices es n).isEmpty = true := by simpa using h4
+                have h6' : idsAreRows (es.map Edge.edgeId) = true := by simpa using h6
+                have h7' : idsAreRows (vs.map Vertex.vertexId) = true := by simpa using h7
+                simp only [h1, h2, h3, h4', h5, h6', h7', Bool.true_eq_false, if_false, Except.ok.injEq] at hg
+                have pe : ef.present = true := by
+                  by_contra hc
+                  have hc' : ef.present = false := by simpa using hc
+                  simp [readCsv, hc'] at h3
+                have pv : vf.present = true := by
+                  by_contra hc
+                  have hc' : vf.present = false := by simpa using hc
+                  simp [readCsv, hc'] at h5
+                refine ⟨es, vs, n, pe, pv, ?_, ?_, rfl, ?_, ?_, ?_, hg.symm⟩
+                · apply decodeRows_eq_ok
+                  simpa [readCsv, pe] using h3
+                · apply decodeRows_eq_ok
+                  simpa [readCsv, pv] using h5
+                · exact (idsAreRows_edges_iff es).1 h6'
+                · exact (idsAreRows_vertices_iff vs).1 h7'
+                · apply (missingVertices_eq_nil_iff es n).1
+                  simpa [List.isEmpty_iff] using h4'
 
 /-- a file that cannot be opened: `IOError` when its count is scanned, `CsvError` when it is declared -/
 theorem missing_file_errors (ef : CsvFile (Edge α)) (vf : CsvFile (Vertex α)) (nV : Option Nat)
@@ -337,48 +393,73 @@ theorem undecodable_edge_row_error (a : List (Edge α)) (b : List (Row (Edge α)
   simp [graphFromFiles, countOrScan, readCsv, decodeRows_bad]
 
 theorem undecodable_vertex_row_error (es : List (Edge α)) (a : List (Vertex α)) (b : List (Row (Vertex α)))
-    (el vl nE nV : Nat) :
+    (el vl nE nV : Nat) (hb : EndpointsBelow es nV) :
     graphFromFiles ⟨true, el, es.map Row.ok⟩ ⟨true, vl, a.map Row.ok ++ Row.bad :: b⟩ (some nE) (some nV) =
       .error .csv := by
-  simp [graphFromFiles, countOrScan, readCsv, decodeRows_ok, decodeRows_bad]
+  have h3 : (missingVertices es nV).isEmpty = true := by
+    rw [(missingVertices_eq_nil_iff es nV).2 hb]; rfl
+  simp [graphFromFiles, countOrScan, readCsv, decodeRows_ok, decodeRows_bad, h3]
+
+/-- an edge with an endpoint at or beyond the declared / scanned vertex count is never loaded
+(`EdgeLoader::try_from` reports its `missing_vertices`) -/
+theorem missing_vertex_rejected (es : List (Edge α)) (vf : CsvFile (Vertex α)) (el : Nat)
+    (nE nV : Option Nat) (n : Nat) (hn : countOrScan nV vf = .ok n) (hb : ¬ EndpointsBelow es n) (g : Graph α) :
+    graphFromFiles ⟨true, el, es.map Row.ok⟩ vf nE nV ≠ .ok g := by
+  intro hg
+  obtain ⟨es', vs, n', _, _, he, _, hn', _, _, hb', _⟩ := from_files_ok_inv _ _ _ _ _ hg
+  have : es' = es := (List.map_injective_iff.2 (fun a b h => by injection h)) he.symm
+  subst this
+  rw [hn] at hn'
+  injection hn' with hn'
+  subst hn'
+  exact hb hb'
+
+/-- an edge file whose ids are not its row numbers (permuted, offset, duplicated) is never loaded -/
+theorem edge_id_not_row_rejected (es : List (Edge α)) (vf : CsvFile (Vertex α)) (el : Nat)
+    (nE nV : Option Nat) (h : ¬ RowIds es) (g : Graph α) :
+    graphFromFiles ⟨true, el, es.map Row.ok⟩ vf nE nV ≠ .ok g := by
+  intro hg
+  obtain ⟨es', vs, n', _, _, he, _, _, hr, _, _, _⟩ := from_files_ok_inv _ _ _ _ _ hg
+  have : es' = es := (List.map_injective_iff.2 (fun a b h => by injection h)) he.symm
+  subst this
+  exact h hr
+
+/-- a vertex file whose ids are not its row numbers is never loaded -/
+theorem vertex_id_not_row_rejected (ef : CsvFile (Edge α)) (vs : List (Vertex α)) (vl : Nat)
+    (nE nV : Option Nat) (h : ¬ VertexRowIds vs) (g : Graph α) :
+    graphFromFiles ef ⟨true, vl, vs.map Row.ok⟩ nE nV ≠ .ok g := by
+  intro hg
+  obtain ⟨es, vs', n', _, _, _, hv, _, _, hr, _, _⟩ := from_files_ok_inv _ _ _ _ _ hg
+  have : vs' = vs := (List.map_injective_iff.2 (fun a b h => by injection h)) hv.symm
+  subst this
+  exact h hr
 
 end
 
-/-! ### the whole property, and where the loader falls short of it -/
+/-! ### the whole property -/
 
-/-- "the graph exposes exactly the listed topology", by id (the harness's oracle states the same) -/
-structure Describes {α : Type} (g : Graph α) (es : List (Edge α)) (vs : List (Vertex α)) : Prop where
+/-- "the graph exposes exactly the listed topology", by id (the harness's oracle states the same):
+sizes, every listed edge and vertex retrievable by its id, adjacency in both directions … -/
+structure DescribesTopology {α : Type} (g : Graph α) (es : List (Edge α)) (vs : List (Vertex α)) : Prop where
   nEdges : g.nEdges = es.length
   nVertices : g.nVertices = vs.length
   edge : ∀ e ∈ es, g.getEdge e.edgeId = .ok e
   vertex : ∀ v ∈ vs, g.getVertex v.vertexId = .ok v
   out : ∀ v x, x ∈ g.outEdges v ↔ ∃ e ∈ es, e.edgeId = x ∧ e.src = v
   inc : ∀ v x, x ∈ g.inEdges v ↔ ∃ e ∈ es, e.edgeId = x ∧ e.dst = v
+
+/-- … and the triplet of every listed edge: both endpoints are listed vertices -/
+structure Describes {α : Type} (g : Graph α) (es : List (Edge α)) (vs : List (Vertex α)) : Prop
+    extends DescribesTopology g es vs where
   triplet : ∀ e ∈ es, ∃ s d, g.edgeTriplet e.edgeId = .ok (s, e, d) ∧ s.vertexId = e.src ∧ d.vertexId = e.dst
 
-/-
-Full statement (what the property asks of *every* edge/vertex list and every way of giving the counts):
-
-  ∀ ef vf nE nV g, graphFromFiles ef vf nE nV = .ok g →
-    ∃ es vs, ef.rows = es.map .ok ∧ vf.rows = vs.map .ok ∧ Describes g es vs
-
-i.e. a load either fails or yields the listed network.  It is false of the code (counterexamples
-below): nothing relates an id to its row, the `missing_vertices` the row callback collects are
-dropped, and the declared vertex count is trusted.  Proved: the statement under the documented input
-format — ids are row numbers, endpoints are listed vertices, the vertex count is right or scanned.
--/
-theorem loaded_network_is_listed_partial {α : Type} (es : List (Edge α)) (vs : List (Vertex α))
-    (el vl : Nat) (nE nV : Option Nat) (hE : nE ≠ none ∨ 1 ≤ el)
-    (hV : nV = some vs.length ∨ (nV = none ∧ vl = vs.length + 1))
-    (h : RowIds es) (hb : EndpointsBelow es vs.length)
-    (hv : ∀ i (h : i < vs.length), (vs[i]'h).vertexId = i) :
-    ∃ g, graphFromFiles ⟨true, el, es.map Row.ok⟩ ⟨true, vl, vs.map Row.ok⟩ nE nV = .ok g ∧
-      Describes g es vs := by
-  refine ⟨_, from_files_ok es vs el vl nE nV hE hV, ?_⟩
-  refine ⟨rfl, rfl, fun e he => get_edge_by_id es vs _ h e he, ?_, ?_, ?_, ?_⟩
+theorem describesTopology_buildGraph {α : Type} (es : List (Edge α)) (vs : List (Vertex α)) (n : Nat)
+    (h : RowIds es) (hv : VertexRowIds vs) (hb : EndpointsBelow es n) :
+    DescribesTopology (buildGraph es vs n) es vs := by
+  refine ⟨rfl, rfl, fun e he => get_edge_by_id es vs _ h e he, ?_, ?_, ?_⟩
   · intro v hm
     obtain ⟨i, hi, rfl⟩ := List.mem_iff_getElem.1 hm
-    have := get_vertex_by_id es vs vs.length hv i hi
+    have := get_vertex_by_id es vs n hv i hi
     rw [this.2]
     exact this.1
   · intro v x
@@ -397,82 +478,128 @@ theorem loaded_network_is_listed_partial {α : Type} (es : List (Edge α)) (vs :
       exact ⟨e, he, rfl, hs⟩
     · rintro ⟨e, he, rfl, hs⟩
       exact ⟨e, ⟨he, hs⟩, rfl⟩
-  · intro e he
-    exact ⟨_, _, edge_triplet_eq es vs _ h hb e he, hv _ _, hv _ _⟩
 
-/-! witnesses (distances and coordinates in `Nat`; the same files are in the harness corpus) -/
+theorem describes_buildGraph {α : Type} (es : List (Edge α)) (vs : List (Vertex α)) (n : Nat)
+    (h : RowIds es) (hv : VertexRowIds vs) (hb : EndpointsBelow es n) (hb' : EndpointsBelow es vs.length) :
+    Describes (buildGraph es vs n) es vs :=
+  { toDescribesTopology := describesTopology_buildGraph es vs n h hv hb
+    triplet := fun e he => ⟨_, _, edge_triplet_eq es vs _ h hb' e he, hv _ _, hv _ _⟩ }
+
+/-- FULL, for every pair of files and every way of giving the counts: a load either fails or yields a
+graph with exactly the listed edges, vertices, coordinates and forward / reverse adjacency -/
+theorem loaded_topology_is_listed {α : Type} (ef : CsvFile (Edge α)) (vf : CsvFile (Vertex α))
+    (nE nV : Option Nat) (g : Graph α) (hg : graphFromFiles ef vf nE nV = .ok g) :
+    ∃ es vs, ef.rows = es.map Row.ok ∧ vf.rows = vs.map Row.ok ∧ DescribesTopology g es vs := by
+  obtain ⟨es, vs, n, _, _, he, hv, _, hr, hvr, hb, rfl⟩ := from_files_ok_inv _ _ _ _ _ hg
+  exact ⟨es, vs, he, hv, describesTopology_buildGraph es vs n hr hvr hb⟩
+
+/-
+Full statement (what the property asks of *every* edge/vertex list and every way of giving the counts):
+
+  ∀ ef vf nE nV g, graphFromFiles ef vf nE nV = .ok g →
+    ∃ es vs, ef.rows = es.map .ok ∧ vf.rows = vs.map .ok ∧ Describes g es vs
+
+i.e. a load either fails or yields the listed network *including the triplet of every edge*.  Since the
+repairs of /repo 0316a94 and c6cac08 all of it is proved (`loaded_topology_is_listed`) except the triplet
+clause, which needs one hypothesis: every endpoint has a row in the vertex file.  What is missing in the
+code: `graph_from_files` never compares the number of vertex rows with the declared / scanned vertex
+count that sized the adjacency tables, so an endpoint that is below that count but has no vertex row
+is accepted (`endpoint_beyond_vertex_rows_accepted_counterexample`: a declared count that is too large,
+or a scanned count inflated by a trailing blank line).  The hypothesis holds in particular whenever the
+count is not larger than the number of vertex rows (`loaded_network_is_listed_of_count_le`).
+-/
+theorem loaded_network_is_listed_partial {α : Type} (ef : CsvFile (Edge α)) (vf : CsvFile (Vertex α))
+    (nE nV : Option Nat) (g : Graph α) (hg : graphFromFiles ef vf nE nV = .ok g) :
+    ∃ es vs, ef.rows = es.map Row.ok ∧ vf.rows = vs.map Row.ok ∧
+      (EndpointsBelow es vs.length → Describes g es vs) := by
+  obtain ⟨es, vs, n, _, _, he, hv, _, hr, hvr, hb, rfl⟩ := from_files_ok_inv _ _ _ _ _ hg
+  exact ⟨es, vs, he, hv, fun hb' => describes_buildGraph es vs n hr hvr hb hb'⟩
+
+/-- no hypothesis on the rows at all when the vertex count in force is at most the number of vertex rows
+(a right or too-small declared count; a scan of a file with one text line per row) -/
+theorem loaded_network_is_listed_of_count_le {α : Type} (ef : CsvFile (Edge α)) (vf : CsvFile (Vertex α))
+    (nE nV : Option Nat) (g : Graph α) (hg : graphFromFiles ef vf nE nV = .ok g)
+    (hn : ∀ n, countOrScan nV vf = .ok n → n ≤ vf.rows.length) :
+    ∃ es vs, ef.rows = es.map Row.ok ∧ vf.rows = vs.map Row.ok ∧ Describes g es vs := by
+  obtain ⟨es, vs, n, _, _, he, hv, hc, hr, hvr, hb, rfl⟩ := from_files_ok_inv _ _ _ _ _ hg
+  have hle : n ≤ vs.length := by simpa [hv] using hn n hc
+  exact ⟨es, vs, he, hv, describes_buildGraph es vs n hr hvr hb
+    (fun e he' => ⟨Nat.lt_of_lt_of_le (hb e he').1 hle, Nat.lt_of_lt_of_le (hb e he').2 hle⟩)⟩
+
+/-- the documented format loads, and to the listed network (the theorems above are not vacuous) -/
+theorem listed_network_loads {α : Type} (es : List (Edge α)) (vs : List (Vertex α))
+    (el vl : Nat) (nE nV : Option Nat) (hE : nE ≠ none ∨ 1 ≤ el)
+    (hV : nV = some vs.length ∨ (nV = none ∧ vl = vs.length + 1))
+    (h : RowIds es) (hb : EndpointsBelow es vs.length) (hv : VertexRowIds vs) :
+    ∃ g, graphFromFiles ⟨true, el, es.map Row.ok⟩ ⟨true, vl, vs.map Row.ok⟩ nE nV = .ok g ∧
+      Describes g es vs :=
+  ⟨_, from_files_ok es vs el vl nE nV hE hV h hb hv, describes_buildGraph es vs _ h hv hb hb⟩
+
+/-! witnesses (distances and coordinates in `Nat`; the same files are W1 … W9 of the harness corpus) -/
 
 def w1Edges : List (Edge Nat) := [⟨1, 0, 1, 7⟩, ⟨0, 1, 0, 9⟩]
 def w2Edges : List (Edge Nat) := [⟨0, 0, 1, 7⟩, ⟨1, 1, 5, 9⟩]
 def w3Edges : List (Edge Nat) := [⟨0, 0, 1, 7⟩, ⟨1, 1, 2, 9⟩, ⟨2, 2, 0, 4⟩]
+def w8Edges : List (Edge Nat) := [⟨0, 0, 1, 7⟩, ⟨1, 1, 2, 9⟩]
 def wVertices (n : Nat) : List (Vertex Nat) := (List.range n).map (fun i => ⟨i, 10 * i, 20 * i⟩)
 
-/-- two edges listed in the reverse order of their ids are accepted; `get_edge 1` then answers with
-edge 0, and `out_edges 0 = [1]` names an edge whose source is reported as 1 -/
-theorem edge_id_not_row_accepted_counterexample :
-    ∃ g, graphFromFiles ⟨true, 3, w1Edges.map Row.ok⟩ ⟨true, 3, (wVertices 2).map Row.ok⟩ (some 2) (some 2) = .ok g ∧
-      g.getEdge 1 = .ok ⟨0, 1, 0, 9⟩ ∧ g.outEdges 0 = [1] ∧ g.srcVertexId 1 = .ok 1 ∧
-      ¬ Describes g w1Edges (wVertices 2) := by
-  refine ⟨_, rfl, by decide, by decide, by decide, ?_⟩
-  intro h
-  have := h.edge ⟨1, 0, 1, 7⟩ (by simp [w1Edges])
-  revert this
-  decide
+/-- W1 (was accepted: `get_edge 1` answered with edge 0): two edges listed in the reverse order of their
+ids are a `DatasetError` -/
+theorem edge_id_not_row_rejected_witness :
+    graphFromFiles ⟨true, 3, w1Edges.map Row.ok⟩ ⟨true, 3, (wVertices 2).map Row.ok⟩ (some 2) (some 2) =
+      .error .dataset := rfl
 
-/-- an edge whose destination (5) is not in the vertex file is accepted with scanned counts: the
-loader records vertex 5 as missing and drops the record; the edge is an out-edge of vertex 1 whose
-triplet cannot be produced, and it is an in-edge of no vertex -/
-theorem missing_vertex_accepted_counterexample :
-    ∃ g, graphFromFiles ⟨true, 3, w2Edges.map Row.ok⟩ ⟨true, 3, (wVertices 2).map Row.ok⟩ none none = .ok g ∧
-      missingVertices w2Edges 2 = [5] ∧
-      g.outEdges 1 = [1] ∧ (∀ w, w ≤ 6 → 1 ∉ g.inEdges w) ∧
-      g.edgeTriplet 1 = .error (.vertexNotFound 5) ∧
-      ¬ Describes g w2Edges (wVertices 2) := by
-  refine ⟨_, rfl, by decide, by decide, by decide, by decide, ?_⟩
-  intro h
-  obtain ⟨s, d, ht, _⟩ := h.triplet ⟨1, 1, 5, 9⟩ (by simp [w2Edges])
-  have ht2 : (Except.error (NetErr.vertexNotFound 5) : Except NetErr (Vertex Nat × Edge Nat × Vertex Nat)) =
-      .ok (s, ⟨1, 1, 5, 9⟩, d) := ht
-  cases ht2
+/-- W2 (was accepted with a triplet that could not be produced): an edge whose destination (5) is not
+in the two-row vertex file, scanned counts, is a `DatasetError` -/
+theorem missing_vertex_rejected_witness :
+    missingVertices w2Edges 2 = [5] ∧
+    graphFromFiles ⟨true, 3, w2Edges.map Row.ok⟩ ⟨true, 3, (wVertices 2).map Row.ok⟩ none none =
+      .error .dataset := ⟨by decide, rfl⟩
 
-/-- a declared vertex count (2) below the vertex file's (3) is trusted: vertex 2 exists, the edge
-2 → 0 is listed and retrievable, but `out_edges 2` is empty and edge 1 is an in-edge of no vertex -/
-theorem declared_vertex_count_trusted_counterexample :
-    ∃ g, graphFromFiles ⟨true, 4, w3Edges.map Row.ok⟩ ⟨true, 4, (wVertices 3).map Row.ok⟩ (some 3) (some 2) = .ok g ∧
-      g.nVertices = 3 ∧ g.getEdge 2 = .ok ⟨2, 2, 0, 4⟩ ∧ g.outEdges 2 = [] ∧ g.inEdges 2 = [] ∧
-      ¬ Describes g w3Edges (wVertices 3) := by
-  refine ⟨_, rfl, by decide, by decide, by decide, by decide, ?_⟩
-  intro h
-  have := (h.out 2 2).2 ⟨⟨2, 2, 0, 4⟩, by simp [w3Edges], rfl, rfl⟩
-  revert this
-  decide
+/-- W3 (was accepted with `out_edges 2 = []`): a declared vertex count (2) below the vertex file's (3),
+with an edge leaving vertex 2, is a `DatasetError`; without such an edge the load is correct
+(`loaded_network_is_listed_of_count_le`) -/
+theorem declared_vertex_count_too_small_rejected_witness :
+    graphFromFiles ⟨true, 4, w3Edges.map Row.ok⟩ ⟨true, 4, (wVertices 3).map Row.ok⟩ (some 3) (some 2) =
+      .error .dataset := rfl
 
-/-- vertex rows listed in another order than their ids are accepted: `get_vertex 0` answers with
-vertex 1 -/
-theorem vertex_id_not_row_accepted_counterexample :
-    ∃ g, graphFromFiles ⟨true, 2, [Row.ok (⟨0, 0, 1, 7⟩ : Edge Nat)]⟩ ⟨true, 3, [Row.ok ⟨1, 10, 20⟩, Row.ok ⟨0, 30, 40⟩]⟩ none none = .ok g ∧
-      g.getVertex 0 = .ok ⟨1, 10, 20⟩ ∧
-      ¬ Describes g [⟨0, 0, 1, 7⟩] [⟨1, 10, 20⟩, ⟨0, 30, 40⟩] := by
-  refine ⟨_, rfl, by decide, ?_⟩
-  intro h
-  have := h.vertex ⟨0, 30, 40⟩ (by simp)
-  revert this
-  decide
+/-- W4 (was accepted: `get_vertex 0` answered with vertex 1): vertex rows listed in another order than
+their ids are a `DatasetError` -/
+theorem vertex_id_not_row_rejected_witness :
+    graphFromFiles ⟨true, 2, [Row.ok (⟨0, 0, 1, 7⟩ : Edge Nat)]⟩ ⟨true, 3, [Row.ok ⟨1, 10, 20⟩, Row.ok ⟨0, 30, 40⟩]⟩
+      none none = .error .dataset := rfl
 
-/-- the scanned vertex count is the text-line count minus one, which need not be the number of records
-the csv reader yields: a vertex file with lone-CR line endings, or gzip data in a file not named `*.gz`
-(the scan decides by extension, the reader by magic bytes) is seen as ONE line; the scanned count is 0,
-both vertex rows are read, and every adjacency entry is silently dropped -/
-theorem scanned_count_below_rows_counterexample :
+/-- W6 (was accepted with empty adjacency): a scan that sees fewer text lines than the csv reader
+yields records — a vertex file with lone-CR line endings is ONE line, scanned count 0 — is a
+`DatasetError` as soon as there is an edge; the same files load correctly with the count declared -/
+theorem scanned_count_below_rows_rejected_witness :
+    graphFromFiles ⟨true, 3, [Row.ok (⟨0, 0, 1, 7⟩ : Edge Nat), Row.ok ⟨1, 1, 0, 9⟩]⟩
+        ⟨true, 1, (wVertices 2).map Row.ok⟩ none none = .error .dataset ∧
     ∃ g, graphFromFiles ⟨true, 3, [Row.ok (⟨0, 0, 1, 7⟩ : Edge Nat), Row.ok ⟨1, 1, 0, 9⟩]⟩
-        ⟨true, 1, (wVertices 2).map Row.ok⟩ none none = .ok g ∧
-      g.nVertices = 2 ∧ g.nEdges = 2 ∧ g.adj.length = 0 ∧ g.outEdges 0 = [] ∧ g.inEdges 0 = [] ∧
-      ¬ Describes g [⟨0, 0, 1, 7⟩, ⟨1, 1, 0, 9⟩] (wVertices 2) := by
-  refine ⟨_, rfl, by decide, by decide, by decide, by decide, by decide, ?_⟩
-  intro h
-  have := (h.out 0 0).2 ⟨⟨0, 0, 1, 7⟩, by simp, rfl, rfl⟩
-  revert this
-  decide
+        ⟨true, 1, (wVertices 2).map Row.ok⟩ none (some 2) = .ok g ∧ g.outEdges 0 = [0] ∧ g.inEdges 0 = [1] :=
+  ⟨rfl, _, rfl, by decide, by decide⟩
+
+/-- W8 / W9 (still accepted): the vertex file has two rows, edge 1 ends at vertex 2; with a declared
+vertex count of 3 — or a scanned one, the file having a trailing blank line (4 text lines) — the load
+succeeds, `n_vertices = 2`, edge 1 is an out-edge of vertex 1 and an in-edge of "vertex" 2, and its
+triplet cannot be produced -/
+theorem endpoint_beyond_vertex_rows_accepted_counterexample :
+    (∃ g, graphFromFiles ⟨true, 3, w8Edges.map Row.ok⟩ ⟨true, 3, (wVertices 2).map Row.ok⟩ (some 2) (some 3) = .ok g ∧
+      g.nVertices = 2 ∧ g.outEdges 1 = [1] ∧ g.inEdges 2 = [1] ∧
+      g.edgeTriplet 1 = .error (.vertexNotFound 2) ∧ ¬ Describes g w8Edges (wVertices 2)) ∧
+    (∃ g, graphFromFiles ⟨true, 3, w8Edges.map Row.ok⟩ ⟨true, 4, (wVertices 2).map Row.ok⟩ none none = .ok g ∧
+      g.edgeTriplet 1 = .error (.vertexNotFound 2) ∧ ¬ Describes g w8Edges (wVertices 2)) := by
+  refine ⟨⟨_, rfl, by decide, by decide, by decide, by decide, ?_⟩, ⟨_, rfl, by decide, ?_⟩⟩
+  · intro h
+    obtain ⟨s, d, ht, _⟩ := h.triplet ⟨1, 1, 2, 9⟩ (by simp [w8Edges])
+    have ht2 : (Except.error (NetErr.vertexNotFound 2) : Except NetErr (Vertex Nat × Edge Nat × Vertex Nat)) =
+        .ok (s, ⟨1, 1, 2, 9⟩, d) := ht
+    cases ht2
+  · intro h
+    obtain ⟨s, d, ht, _⟩ := h.triplet ⟨1, 1, 2, 9⟩ (by simp [w8Edges])
+    have ht2 : (Except.error (NetErr.vertexNotFound 2) : Except NetErr (Vertex Nat × Edge Nat × Vertex Nat)) =
+        .ok (s, ⟨1, 1, 2, 9⟩, d) := ht
+    cases ht2
 
 /-! ### non-vacuity -/
 
@@ -514,8 +641,12 @@ example : (buildGraph (star 7) (wVertices 3) 3).incidentTripletIds 1 .reverse = 
 example : (buildGraph (star 7) (wVertices 3) 3).edgeTriplet 5 = .ok (⟨0, 0, 0⟩, ⟨5, 0, 2, 6⟩, ⟨2, 20, 40⟩) := by decide
 example : ∃ g, graphFromFiles ⟨true, 8, (star 7).map Row.ok⟩ ⟨true, 4, (wVertices 3).map Row.ok⟩ none none = .ok g ∧
     Describes g (star 7) (wVertices 3) :=
-  loaded_network_is_listed_partial (star 7) (wVertices 3) 8 4 none none (Or.inr (by decide)) (Or.inr ⟨rfl, rfl⟩)
+  listed_network_loads (star 7) (wVertices 3) 8 4 none none (Or.inr (by decide)) (Or.inr ⟨rfl, rfl⟩)
     (star_rowIds 7) (star_endpoints 7) (by intro i h; simp [wVertices])
+-- the hypotheses of the rejection theorems are satisfiable
+example : ¬ RowIds w1Edges := fun h => absurd (h 0 (by decide)) (by decide)
+example : ¬ EndpointsBelow w2Edges 2 := fun h => absurd (h ⟨1, 1, 5, 9⟩ (by simp [w2Edges])).2 (by decide)
+example : ¬ VertexRowIds ([⟨1, 10, 20⟩, ⟨0, 30, 40⟩] : List (Vertex Nat)) := fun h => absurd (h 0 (by decide)) (by decide)
 -- a duplicated id at one vertex overwrites in place (the general theorems' `outFold`), it does not append
 example : adjKeys (outFold 0 ([⟨0, 0, 1, 7⟩, ⟨0, 0, 2, 9⟩] : List (Edge Nat)) []) = [0] := by decide
 -- the error theorems are not vacuous
